@@ -756,13 +756,14 @@ def eval_under(test, env, funcnode=None):
     return env.get(src(test))
 
 
-def reach_under(cfg, funcnode, env, exc=True):
+def reach_under(cfg, funcnode, env, exc=True, avoid=()):
     """CFG nodes reachable from the entry when the atoms of env are fixed (a finite abstraction of the path conditions:
-    tests that env decides are followed on one side only)"""
+    tests that env decides are followed on one side only), not entering the nodes in `avoid`"""
+    avoid = set(avoid)
     seen, stack = set(), [cfg.entry]
     while stack:
         n = stack.pop()
-        if n in seen:
+        if n in seen or n in avoid:
             continue
         seen.add(n)
         t = cfg.nodes[n]
@@ -772,6 +773,40 @@ def reach_under(cfg, funcnode, env, exc=True):
                 continue
             stack.append(b)
     return seen
+
+
+def value_returned_under(cfg, funcnode, assign, name, env):
+    """the value bound to the local `name` by statement `assign` is returned although it has the properties fixed in env
+    (atoms as for eval_under, e.g. {'ret is None': False, 'callable(ret)': False}): the return statements reached with the
+    local still holding that value, following only the sides of tests that env allows while it does.  A re-binding of the
+    local ends the tracking; the exception edge of the binding statement itself is left with the old value."""
+    start = set(cfg.node_of(assign))
+    seen, stack, hits = set(), [], []
+    for n in start:
+        for b, lab in cfg.succ[n]:
+            if lab != 'exc':
+                stack.append((b, True))
+    while stack:
+        n, raw = stack.pop()
+        if (n, raw) in seen:
+            continue
+        seen.add((n, raw))
+        t = cfg.nodes[n]
+        a = t.ast
+        if raw and isinstance(a, ast.Return) and isinstance(a.value, ast.Name) and a.value.id == name:
+            hits.append(a)
+            continue
+        after = raw
+        if isinstance(a, (ast.Assign, ast.AugAssign, ast.AnnAssign)) and t.kind not in ('test',):
+            tg = a.targets if isinstance(a, ast.Assign) else [a.target]
+            if any(isinstance(x, ast.Name) and x.id == name for tt in tg for x in ast.walk(tt)):
+                after = n in start
+        known = eval_under(a, env, None) if raw and t.kind == 'test' and not isinstance(a, ast.stmt) else None
+        for b, lab in cfg.succ[n]:
+            if (known is True and lab == 'F') or (known is False and lab == 'T'):
+                continue
+            stack.append((b, raw if lab == 'exc' else after))
+    return hits
 
 
 def resolved(expr, funcnode, depth=4):
